@@ -227,6 +227,21 @@ CLAIMED = {
                             "evaluation of the property on the same histories.  Table layout is parsed, not modelled."),
         technique="Lean 4 proof (fold induction) over hand model + trace validation against real sweeps",
         design="5/C15"),
+    "C16": dict(
+        text=("Lean theorems about an abstract build/run model: if building returns its input unchanged then every one of any "
+              "number of successive constructions from one input object yields the first model (and a mutating build provably "
+              "does not); if a time point's output is a function of (input, time point) and a task writes only its own slot, "
+              "then serial execution, every parallel schedule (any order, any worker count) and one-at-a-time execution "
+              "produce the same output for every time point.  PARTIAL: the hypotheses are established by observation on the "
+              "real code - structural fingerprint of DASSH_Input.data before/after Reactor(...) for plain, FuelModel, "
+              "PinModel, dump and hot-spot inputs; a second construction and a fresh execution must be bitwise identical; "
+              "dassh main with 2-3 time points is run serially, with a worker pool and one time point alone and the "
+              "per-time-point outputs are compared."),
+        note=COMMON_NOTE + ("hand abstract model; determinism of NumPy/BLAS reductions, the OS and the multiprocessing runtime "
+                            "are trusted, not modelled (named runtime behaviour the model cannot exhibit); time stamps are "
+                            "stripped before comparing text outputs."),
+        technique="Lean 4 proof (induction, permutation) over abstract model + input fingerprinting and serial/parallel/alone execution oracle",
+        design="5/C16"),
     "C17": dict(
         text=("Lean theorems over any field of characteristic 0 about the traced scalar converters of dassh.utils: every "
               "supported conversion composed with its inverse is the identity; ft = 12 in, in = 2.54 cm, cm = 10 mm; "
